@@ -20,6 +20,7 @@ type Ctx struct {
 	Tier  string
 	Verif string
 	Repo  string
+	Only  map[string]bool // while set: anchors outside this set resolve to nothing, silently (a rule set re-run for a few functions)
 }
 
 type propSpec struct {
@@ -194,6 +195,7 @@ func main() {
 			}()
 			spec.run(c)
 			upgradeByInlining(c, spec)
+			runDepClosure(c)
 			if !*noFix {
 				runFixtures(c, spec)
 			}
